@@ -144,6 +144,16 @@ func applyJSONOperation(docBytes []byte, op json.RawMessage) (result []byte, err
 		}
 	}
 
+	if pathMsg, ok := fields["path"]; ok {
+		var path string
+
+		if e := json.Unmarshal(pathMsg, &path); e == nil {
+			if e = validateArrayIndices(docBytes, path); e != nil {
+				return nil, fmt.Errorf("jsonpatch %s operation does not apply: %w", kind, e)
+			}
+		}
+	}
+
 	steps := []interface{}{op}
 
 	if kind == "move" || kind == "copy" {
@@ -229,6 +239,52 @@ func getJSONPointerValue(docBytes []byte, pointer string) (json.RawMessage, erro
 	}
 
 	return json.Marshal(current)
+}
+
+// validateArrayIndices returns an error if a reference token of the JSON pointer addresses an element of an existing
+// array and is not an array index as defined by RFC 6901 ('-' or digits without sign and leading zeros). The JSON patch
+// library reads such tokens as integers: negative values count from the end, '+1' and '01' are taken for 1.
+func validateArrayIndices(docBytes []byte, pointer string) error {
+	if !strings.HasPrefix(pointer, "/") {
+		return nil
+	}
+
+	var current interface{}
+
+	decoder := json.NewDecoder(strings.NewReader(string(docBytes)))
+	decoder.UseNumber()
+
+	if err := decoder.Decode(&current); err != nil {
+		return err
+	}
+
+	unescape := strings.NewReplacer("~1", "/", "~0", "~")
+
+	for _, token := range strings.Split(pointer[1:], "/") {
+		switch node := current.(type) {
+		case map[string]interface{}:
+			current = node[unescape.Replace(token)]
+		case []interface{}:
+			if token == "-" {
+				return nil
+			}
+
+			index, err := strconv.Atoi(token)
+			if err != nil || index < 0 || strconv.Itoa(index) != token {
+				return fmt.Errorf("invalid array index '%s' at '%s'", token, pointer)
+			}
+
+			if index >= len(node) {
+				return nil
+			}
+
+			current = node[index]
+		default:
+			return nil
+		}
+	}
+
+	return nil
 }
 
 func applyRecover(replaceDoc interface{}) (document.Document, error) {
